@@ -104,16 +104,41 @@ func main() {
 			fmt.Printf("BROKEN: no rules registered for %s\n", id)
 			os.Exit(2)
 		}
-		c := NewCtx(p, id, *tier)
-		c.Explain = rs.Explain
-		func() {
-			defer func() {
-				if r := recover(); r != nil {
-					c.Undecided("engine", "panic", fmt.Sprint(r))
-				}
+		runOnce := func(subst map[string]string) *Ctx {
+			c := NewCtx(p, id, *tier)
+			c.Explain = rs.Explain
+			c.anchorSubst = subst
+			func() {
+				defer func() {
+					if r := recover(); r != nil {
+						c.Undecided("engine", "panic", fmt.Sprint(r))
+					}
+				}()
+				rs.Run(c)
 			}()
-			rs.Run(c)
-		}()
+			return c
+		}
+		c := runOnce(nil)
+		// an anchor function that is gone while its only caller survives was most likely merged
+		// into that caller: run the rules once more with the caller standing in for it. Only a
+		// completely clean second run is accepted (the same obligations, all discharged, on the
+		// function that now holds the code); anything else leaves the first verdict.
+		if subst := c.mergedInto(); subst != nil {
+			c2 := runOnce(subst)
+			if os.Getenv("LISKCHECK_SHOW_PASS2") != "" {
+				for _, o := range c2.Obs {
+					if o.Status != "discharged" {
+						fmt.Printf("  pass2 %s [%s] %s | %s | %s\n", o.Status, o.Rule, o.Construct, o.Site, o.Detail)
+					}
+				}
+			}
+			if c2.clean(*verif) {
+				for a, g := range subst {
+					c2.Notes = append(c2.Notes, "anchor "+a+" is gone; its only caller "+g+" was analysed in its place and discharged every obligation")
+				}
+				c = c2
+			}
+		}
 		if rc := c.Finish(*verif); rc > code {
 			code = rc
 		}
